@@ -647,4 +647,233 @@ theorem foldl_RInv (n : Nat) (nbrs : Nat → List Nat) (dist : Nat → Nat → D
 
 end reach
 
+/-! ## the whole ordering is a function of the relation and the distances -/
+section determined
+set_option linter.unusedSectionVars false
+variable {D : Type} [LT D] [DecidableLT D]
+
+/-- the update of `points[j]` inside `get_seeds` -/
+def ptsStep (dist : Nat → Nat → D) (i : Nat) (c : D) (pts : List (Pt D)) (j : Nat) : List (Pt D) :=
+  match getReach pts j with
+  | none => setReach pts j (fmax c (dist j i))
+  | some s => if fmax c (dist j i) < s then setReach pts j (fmax c (dist j i)) else pts
+
+/-- the `get_seeds` loop, named -/
+def seedsFold (dist : Nat → Nat → D) (i : Nat) (c : D) (ps : List (Pt D) × List Nat) (j : Nat) :
+    List (Pt D) × List Nat :=
+  let r := fmax c (dist j i)
+  match getReach ps.1 j with
+  | none => (setReach ps.1 j r, ps.2 ++ [j])
+  | some s => if r < s then (setReach ps.1 j r, ps.2) else ps
+
+theorem getSeeds_eq_fold (dist : Nat → Nat → D) (i : Nat) (c : D) (ns : List Nat) (processed : List Bool)
+    (pts : List (Pt D)) (seeds : List Nat) :
+    getSeeds dist i c ns processed pts seeds =
+      (ns.filter fun j => !isProcessed processed j).foldl (seedsFold dist i c) (pts, seeds) := rfl
+
+theorem seedsFold_fst (dist : Nat → Nat → D) (i : Nat) (c : D) (ps : List (Pt D) × List Nat) (j : Nat) :
+    (seedsFold dist i c ps j).1 = ptsStep dist i c ps.1 j := by
+  unfold seedsFold ptsStep
+  simp only
+  split
+  · rfl
+  · split <;> rfl
+
+theorem fold_fst (dist : Nat → Nat → D) (i : Nat) (c : D) :
+    ∀ (l : List Nat) (ps : List (Pt D) × List Nat),
+      (l.foldl (seedsFold dist i c) ps).1 = l.foldl (ptsStep dist i c) ps.1 := by
+  intro l
+  induction l with
+  | nil => intro ps; rfl
+  | cons j l ih =>
+    intro ps
+    simp only [List.foldl_cons]
+    rw [ih, seedsFold_fst]
+
+theorem setReach_some (pts : List (Pt D)) (j : Nat) (p : Pt D) (r : D) (h : pts[j]? = some p) :
+    setReach pts j r = pts.set j { p with reach := some r } := by
+  unfold setReach; rw [h]
+
+theorem setReach_none (pts : List (Pt D)) (j : Nat) (r : D) (h : pts[j]? = none) :
+    setReach pts j r = pts := by
+  unfold setReach; rw [h]
+
+theorem setReach_comm (pts : List (Pt D)) (x y : Nat) (a b : D) (h : x ≠ y) :
+    setReach (setReach pts x a) y b = setReach (setReach pts y b) x a := by
+  have h' : y ≠ x := fun e => h e.symm
+  cases hx : pts[x]? with
+  | none =>
+    rw [setReach_none pts x a hx]
+    cases hy : pts[y]? with
+    | none => rw [setReach_none pts y b hy, setReach_none pts x a hx]
+    | some q =>
+      rw [setReach_some pts y q b hy]
+      rw [setReach_none _ x a (by rw [List.getElem?_set_ne h']; exact hx)]
+  | some p =>
+    rw [setReach_some pts x p a hx]
+    cases hy : pts[y]? with
+    | none =>
+      rw [setReach_none pts y b hy, setReach_some pts x p a hx]
+      rw [setReach_none _ y b (by rw [List.getElem?_set_ne h]; exact hy)]
+    | some q =>
+      rw [setReach_some pts y q b hy]
+      rw [setReach_some _ y q b (by rw [List.getElem?_set_ne h]; exact hy)]
+      rw [setReach_some _ x p a (by rw [List.getElem?_set_ne h']; exact hx)]
+      exact List.set_comm _ _ h
+
+theorem ptsStep_comm (dist : Nat → Nat → D) (i : Nat) (c : D) (pts : List (Pt D)) (x y : Nat) :
+    ptsStep dist i c (ptsStep dist i c pts x) y = ptsStep dist i c (ptsStep dist i c pts y) x := by
+  by_cases h : x = y
+  · subst h; rfl
+  · have h' : y ≠ x := fun e => h e.symm
+    unfold ptsStep
+    cases hx : getReach pts x <;> cases hy : getReach pts y <;> simp only []
+    all_goals
+      (repeat' split) <;>
+      simp_all [getReach_setReach_ne, setReach_comm pts x y _ _ h]
+
+end determined
+
+section determined2
+variable {D : Type} [LinearOrder D]
+
+/-- seeds pushed by the `get_seeds` loop over a duplicate-free list: the samples without reachability -/
+theorem fold_snd (dist : Nat → Nat → D) (i : Nat) (c : D) :
+    ∀ (l : List Nat), l.Nodup → ∀ (ps : List (Pt D) × List Nat),
+      (l.foldl (seedsFold dist i c) ps).2 = ps.2 ++ l.filter fun j => (getReach ps.1 j).isNone := by
+  intro l
+  induction l with
+  | nil => intro _ ps; simp
+  | cons j l ih =>
+    intro hnd ps
+    have hnd' := List.nodup_cons.mp hnd
+    simp only [List.foldl_cons]
+    rw [ih hnd'.2]
+    have keep : ∀ (r : D), (l.filter fun k => (getReach (setReach ps.1 j r) k).isNone) =
+        l.filter fun k => (getReach ps.1 k).isNone := by
+      intro r
+      apply List.filter_congr
+      intro k hk
+      have : j ≠ k := fun e => hnd'.1 (e ▸ hk)
+      rw [getReach_setReach_ne ps.1 j k r this]
+    unfold seedsFold
+    simp only
+    cases hg : getReach ps.1 j with
+    | none => simp [List.filter_cons, hg, keep]
+    | some s0 =>
+      by_cases hlt : fmax c (dist j i) < s0
+      · simp [List.filter_cons, hg, hlt, keep]
+      · simp [List.filter_cons, hg, hlt]
+
+/-- `get_seeds` over two arrangements of the same duplicate-free neighbour list: same points, the same
+seeds up to order -/
+theorem getSeeds_perm (dist : Nat → Nat → D) (i : Nat) (c : D) (ns₁ ns₂ : List Nat) (hp : ns₁.Perm ns₂)
+    (hnd : ns₁.Nodup) (processed : List Bool) (pts : List (Pt D)) (sd₁ sd₂ : List Nat) (hs : sd₁.Perm sd₂) :
+    (getSeeds dist i c ns₁ processed pts sd₁).1 = (getSeeds dist i c ns₂ processed pts sd₂).1 ∧
+    (getSeeds dist i c ns₁ processed pts sd₁).2.Perm (getSeeds dist i c ns₂ processed pts sd₂).2 := by
+  rw [getSeeds_eq_fold, getSeeds_eq_fold]
+  have hpf := hp.filter (fun j => !isProcessed processed j)
+  have hnd₁ : (ns₁.filter fun j => !isProcessed processed j).Nodup := hnd.filter _
+  have hnd₂ : (ns₂.filter fun j => !isProcessed processed j).Nodup := (hp.nodup_iff.mp hnd).filter _
+  constructor
+  · rw [fold_fst, fold_fst]
+    exact hpf.foldl_eq' (fun x _ y _ z => ptsStep_comm dist i c z x y) pts
+  · rw [fold_snd dist i c _ hnd₁, fold_snd dist i c _ hnd₂]
+    exact hs.append (hpf.filter _)
+
+theorem mergeSort_desc_eq (l₁ l₂ : List Nat) (h : l₁.Perm l₂) :
+    l₁.mergeSort (fun a b => decide (b ≤ a)) = l₂.mergeSort (fun a b => decide (b ≤ a)) := by
+  have srt : ∀ l : List Nat, (l.mergeSort (fun a b => decide (b ≤ a))).Pairwise (fun a b => b ≤ a) := by
+    intro l
+    have := List.pairwise_mergeSort (le := fun a b : Nat => decide (b ≤ a))
+      (by intro a b c h1 h2; simp only [decide_eq_true_eq] at h1 h2 ⊢; omega)
+      (by intro a b; simp only [Bool.or_eq_true, decide_eq_true_eq]; omega) l
+    exact this.imp (by intro a b h; simpa using h)
+  apply List.Perm.eq_of_pairwise (le := fun a b => b ≤ a)
+  · intro a b _ _ h1 h2; omega
+  · exact srt l₁
+  · exact srt l₂
+  · exact (List.mergeSort_perm _ _).trans (h.trans (List.mergeSort_perm _ _).symm)
+
+/-- two runs are in step: same points, processed set and ordering, the same seeds up to order -/
+structure Sim (s₁ s₂ : State D) : Prop where
+  pts : s₁.pts = s₂.pts
+  processed : s₁.processed = s₂.processed
+  out : s₁.out = s₂.out
+  seeds : s₁.seeds.Perm s₂.seeds
+
+variable (nbrs₁ nbrs₂ : Nat → List Nat) (dist : Nat → Nat → D) (mp : Nat)
+  (hperm : ∀ i, (nbrs₁ i).Perm (nbrs₂ i)) (hnd : ∀ i, (nbrs₁ i).Nodup)
+include hperm hnd
+
+theorem coreDist_congr (j : Nat) :
+    coreDist dist mp j (findNeighbors nbrs₁ dist j) = coreDist dist mp j (findNeighbors nbrs₂ dist j) := by
+  rw [coreDist_eq, coreDist_eq, sorted_dists_unique nbrs₁ nbrs₂ dist j (hperm j)]
+
+theorem findNeighbors_congr (j : Nat) :
+    (findNeighbors nbrs₁ dist j).Perm (findNeighbors nbrs₂ dist j) ∧ (findNeighbors nbrs₁ dist j).Nodup :=
+  ⟨(findNeighbors_perm nbrs₁ dist j).trans ((hperm j).trans (findNeighbors_perm nbrs₂ dist j).symm),
+   (findNeighbors_perm nbrs₁ dist j).nodup_iff.mpr (hnd j)⟩
+
+theorem seedStep_Sim (s₁ s₂ : State D) (h : Sim s₁ s₂) (sorted : List Nat) (j0 : Nat) :
+    Sim (seedStep nbrs₁ dist mp s₁ sorted j0) (seedStep nbrs₂ dist mp s₂ sorted j0) := by
+  obtain ⟨hpts, hproc, hout, _⟩ := h
+  unfold seedStep
+  rw [hpts, hproc, hout]
+  simp only
+  generalize (argminPos s₂.pts sorted.tail 1 (0, j0)) = pj
+  rw [coreDist_congr nbrs₁ nbrs₂ dist mp hperm hnd pj.2]
+  obtain ⟨fp, fnd⟩ := findNeighbors_congr nbrs₁ nbrs₂ dist hperm hnd pj.2
+  cases hc : coreDist dist mp pj.2 (findNeighbors nbrs₂ dist pj.2) with
+  | none => exact ⟨rfl, rfl, rfl, List.Perm.refl _⟩
+  | some cd =>
+    obtain ⟨g1, g2⟩ := getSeeds_perm dist pj.2 cd _ _ fp fnd (s₂.processed.set pj.2 true)
+      (setCore s₂.pts pj.2 (some cd)) (sorted.eraseIdx pj.1) (sorted.eraseIdx pj.1) (List.Perm.refl _)
+    exact ⟨g1, rfl, rfl, g2⟩
+
+theorem seedLoop_Sim : ∀ (fuel : Nat) (s₁ s₂ : State D), Sim s₁ s₂ →
+    Sim (seedLoop nbrs₁ dist mp fuel s₁) (seedLoop nbrs₂ dist mp fuel s₂) := by
+  intro fuel
+  induction fuel with
+  | zero => intro s₁ s₂ h; exact h
+  | succ fuel ih =>
+    intro s₁ s₂ h
+    unfold seedLoop
+    rw [mergeSort_desc_eq s₁.seeds s₂.seeds h.seeds]
+    split
+    · exact h
+    · rename_i j0 rest _
+      exact ih _ _ (seedStep_Sim nbrs₁ nbrs₂ dist mp hperm hnd s₁ s₂ h (j0 :: rest) j0)
+
+theorem outerStep_Sim (n : Nat) (s₁ s₂ : State D) (h : Sim s₁ s₂) (i : Nat) :
+    Sim (outerStep nbrs₁ dist mp n s₁ i) (outerStep nbrs₂ dist mp n s₂ i) := by
+  have h0 := h
+  obtain ⟨hpts, hproc, hout, hseeds⟩ := h
+  unfold outerStep
+  rw [hproc]
+  split
+  · exact h0
+  · simp only
+    rw [coreDist_congr nbrs₁ nbrs₂ dist mp hperm hnd i, hpts, hout]
+    obtain ⟨fp, fnd⟩ := findNeighbors_congr nbrs₁ nbrs₂ dist hperm hnd i
+    cases hc : coreDist dist mp i (findNeighbors nbrs₂ dist i) with
+    | none => exact ⟨rfl, rfl, rfl, hseeds⟩
+    | some cd =>
+      simp only
+      apply seedLoop_Sim nbrs₁ nbrs₂ dist mp hperm hnd
+      obtain ⟨g1, g2⟩ := getSeeds_perm dist i cd _ _ fp fnd (s₂.processed.set i true)
+        (setCore s₂.pts i (some cd)) [] [] (List.Perm.refl _)
+      exact ⟨g1, rfl, rfl, g2⟩
+
+theorem foldl_Sim (n : Nat) : ∀ (l : List Nat) (s₁ s₂ : State D), Sim s₁ s₂ →
+    Sim (l.foldl (outerStep nbrs₁ dist mp n) s₁) (l.foldl (outerStep nbrs₂ dist mp n) s₂) := by
+  intro l
+  induction l with
+  | nil => intro s₁ s₂ h; exact h
+  | cons i l ih =>
+    intro s₁ s₂ h
+    exact ih _ _ (outerStep_Sim nbrs₁ nbrs₂ dist mp hperm hnd n s₁ s₂ h i)
+
+end determined2
+
 end LinfaSpec.Optics
